@@ -356,3 +356,20 @@ def psrc(f, node, canon=('self', 'other')):
         if isinstance(x, ast.Name) and x.id in m:
             x.id = m[x.id]
     return ast.unparse(n2)
+
+
+def reuse_obligations(ctx, R, fn, new_rule, select=None):
+    """Run rule function fn(ctx, recorder) on a scratch recorder and copy its
+    obligations into R under new_rule (select: predicate on obligations)."""
+    from psa import report
+    scratch = report.Recorder('scratch')
+    fn(ctx, scratch)
+    n = 0
+    for o in scratch.obs:
+        if select is not None and not select(o):
+            continue
+        n += 1
+        R.obs.append(report.Obligation(
+            new_rule, o.construct, o.ok, o.expected, o.found, o.file,
+            o.line, o.path, o.nontrivial))
+    return n
